@@ -7,6 +7,8 @@ Recs == ndJsonDeserialize(IOEnv.TRACE_FILE)
 VARIABLE i
 Strip(prefix, p) == LET l == p[Len(p)] IN
                     IF Len(l) > 1 /\ l[1] = prefix THEN SubSeq(p, 1, Len(p) - 1) \o <<Tail(l)>> ELSE p
+RemovesExplicit(prefix, t, p) == LET l == p[Len(p)] IN
+                                 Len(l) > 1 /\ l[1] = prefix /\ (SubSeq(p, 1, Len(p) - 1) \o <<Tail(l)>>) \in Paths(t)
 Verdict(r) ==
   LET want == Complete(r.t, r.rules)
       wantU == Complete(r.u, r.rules)
@@ -16,7 +18,9 @@ Verdict(r) ==
      ELSE IF Canon(r.mt) # Canon(want) THEN (IF SubT(r.mt, want) THEN "default-missing" ELSE "default-added-next-to-explicit-line")
      ELSE IF Canon(r.mt2) # Canon(r.mt) THEN "completion-not-idempotent"
      ELSE IF ~r.independent THEN "completed-trees-share-parts"
-     ELSE IF \E k \in DOMAIN r.cmds : r.cmds[k] \in onlyImplicit \/ Strip(r.prefix, r.cmds[k]) \in onlyImplicit
+     \* (a command spelled like a default may also be the REMOVAL of an explicit line of t: `no shutdown` removes the written `shutdown`)
+     ELSE IF \E k \in DOMAIN r.cmds : (r.cmds[k] \in onlyImplicit /\ ~RemovesExplicit(r.prefix, r.t, r.cmds[k]))
+                                       \/ Strip(r.prefix, r.cmds[k]) \in onlyImplicit
           THEN "command-for-a-default-absent-from-both"
      ELSE "ok"
 Init == i = 0
